@@ -166,7 +166,7 @@ pub fn finish(ctx: &Ctx, level: Level, mut report: Report) -> i32 {
 			"[{}] {} evaluations, {} distinct non-trivial, {:.1}s, evidence {}",
 			ctx.property,
 			report.stats.evaluations,
-			report.stats.nontrivial.len(),
+			report.stats.nontrivial.len() as u64 + report.stats.nontrivial_extra,
 			wall,
 			p.display()
 		),
